@@ -8,8 +8,8 @@
      non_header b := b is neither 0xFA nor 0xFC
      togo f       := 0 when idle; 10 after the header; 9 after FA/FC 00;
                      expected_bytes + 1 afterwards                     (bytes before idle)   *)
-From DS Require Import Base.Prelude Base.Bits Model.Utils Model.AslLine
-  Proofs.AslFrameProofs Proofs.AslLineProofs.
+From DS Require Import Base.Prelude Base.Bits Model.Utils Model.AslLine Proofs.AslFrameProofs.
+From DS Require Import Proofs.AslLineProofs.
 
 (* Resynchronisation condition of this protocol: after any history, any 10 bytes that cannot
    start a command (a fortiori any 11 = one maximum-length broadcast frame) leave the parser
